@@ -59,6 +59,9 @@ type TreeSpec struct {
 	// EmptyLeaves: 0 = childless nodes have a nil Children slice, 1 = an empty non-nil slice,
 	// 2 = alternating, 3 = an empty slice with spare capacity.
 	EmptyLeaves int `json:"empty_leaves,omitempty"`
+	// SharedChildren: all Children slices are windows of ONE backing array (as an arena-style
+	// builder produces), so each slice's spare capacity holds the children of other nodes.
+	SharedChildren bool `json:"shared_children,omitempty"`
 }
 
 // ParentArray expands the spec into a parent array (parent of node i, -1 for the root) in an
